@@ -3,7 +3,8 @@
 EXTENDS Fees, Json
 CONSTANTS Depth,
           MinPrices, MinLimits, PerBytes, MaxGases, Mods, PenEpochs, ModEpochs, Supplies,   \* configuration space
-          Prices, GasLimits, DataLens, Values, BuiltIns                                    \* transaction space
+          Prices, GasLimits, DataLens, Values,                                             \* plain transactions
+          BiPrices, BiGasLimits, BiDataLens, BuiltIns                                      \* built-in function calls
 
 \* every configuration that satisfies the stated assumption minGasPrice * modifier >= 1
 MCCfgs == {c \in [minPrice : MinPrices, minLimit : MinLimits, perByte : PerBytes, maxGas : MaxGases,
@@ -12,7 +13,9 @@ MCCfgs == {c \in [minPrice : MinPrices, minLimit : MinLimits, perByte : PerBytes
               /\ <<c.num, c.den>> \in Mods
               /\ (c.minPrice * c.num) \div c.den >= 1
               /\ c.maxGas >= c.minLimit}
-MCTxs == [price : Prices, gl : GasLimits, dl : DataLens, value : Values, bi : BuiltIns]
+\* built-in calls carry call data "ESDTBurn[@arg..]" in the harness, hence data lengths >= 8
+MCTxs == [price : Prices, gl : GasLimits, dl : DataLens, value : Values, bi : {0}]
+         \cup [price : BiPrices, gl : BiGasLimits, dl : BiDataLens, value : {0}, bi : BuiltIns]
 
 \* price modifiers num/den (cfg files cannot contain tuples)
 ModsQuick    == {<<1, 1>>, <<1, 2>>, <<1, 3>>, <<2, 3>>}
